@@ -67,13 +67,13 @@ func newC20heap() *c20heap {
 		h.names[h.elems[n]] = n
 	}
 	// two distinct elements holding host values of one uncomparable type (equal contents), one holding a struct with a slice inside
-	for i, o := range []any{map[string]int{"id": 1}, map[string]int{"id": 1}, struct {
+	for i, o := range []any{map[string]int{"id": 1}, map[string]int{"id": 2}, struct {
 		Name string
 		Tags []string
 	}{"s1", []string{"x"}}, struct {
 		Name string
 		Tags []string
-	}{"s1", []string{"x"}}} {
+	}{"s2", []string{"x"}}} {
 		n := fmt.Sprintf("eo%d", i+1)
 		h.elems[n] = variants.VariantFromObject(o)
 		h.names[h.elems[n]] = n
@@ -88,6 +88,17 @@ func (h *c20heap) elemID(p *variants.Variant) string {
 	}
 	if p == nil {
 		return "nilptr"
+	}
+	// an element object the recorder did not make itself (a copy of an array may hold copies of the elements): known by its value
+	if p.Type() == variants.Integer && p.AsInteger() >= 101 && p.AsInteger() <= 105 {
+		return fmt.Sprintf("e%d", p.AsInteger()-100)
+	}
+	if p.Type() == variants.Object {
+		for n, q := range h.elems {
+			if q != nil && q.Type() == variants.Object && fmt.Sprintf("%#v", q.AsObject()) == fmt.Sprintf("%#v", p.AsObject()) {
+				return n
+			}
+		}
 	}
 	if p.IsNull() {
 		return "nul"
